@@ -143,6 +143,29 @@ def toml_for(key, typ):
     return "version = 1\n\n[[annotations]]\n" + "\n".join(a.values()) + "\n" + sub_tail, cls
 
 
+# syntactically or structurally invalid TOML of every kind tomlkit distinguishes (parse errors, duplicate keys and tables,
+# conflicting dotted keys, ...): all definitely broken
+BROKEN_TOML = [
+    'version = 1\n[[annotations]]\npath = "a.txt"\npath = "b.txt"\n',
+    'version = 1\nversion = 2\n',
+    'version = 1\n[[annotations]]\npath = { a = 1, a = 2 }\n',
+    'version = 1\n[extra]\nx = 1\n[extra]\ny = 2\n',
+    'version = 1\nannotations = 1\n[[annotations]]\npath = "a.txt"\n',
+    'version = 1\na = 1\na.b = 2\n',
+    'version = 1\n[[annotations]]\npath = "a.txt\n',
+    'version = 1\n[[annotations]]\npath = "\\q"\n',
+    'version = 1\n[[annotations]\npath = "a.txt"\n',
+    'version = 1\n[[annotations]]\npath = [ "a.txt", \n',
+    'version = 1\n[[annotations]]\nSPDX-FileCopyrightText = 2020-13-45\npath = "a.txt"\n',
+    'version = 1\n[[annotations]]\npath = "a.txt"\nSPDX-License-Identifier = "MIT AND"\n',
+    'version = 1\n[[annotations]]\npath = "a.txt"\nSPDX-License-Identifier = ["MIT", "(0BSD"]\n',
+    'version = 1\n[[annotations]]\n"path" = "a.txt"\npath = "b.txt"\n',
+    '= 1\n',
+    'version = 01\n',
+    'version = 1\n[a.b]\nc = 1\n[a]\nb = 2\n',
+    '\x00version = 1\n',
+]
+
 COMMANDS = ["lint", "lint-pool", "lint-file", "spdx", "annotate", "convert-dep5", "download-all"]
 
 
@@ -206,10 +229,12 @@ def generate(tier, seed):
         cases.append({"kind": "toml-trunc", "off": off})
     for off in range(0, len(VALID_DEP5.encode()), step):
         cases.append({"kind": "dep5-trunc", "off": off})
+    for j in range(len(BROKEN_TOML)):
+        cases.append({"kind": "toml-broken", "j": j})
     nflip = 120 if tier == "quick" else 6000
     for k in range(nflip):
         cases.append({"kind": "flip", "k": k})
-    nfiles = 40 if tier == "quick" else 1500
+    nfiles = 90 if tier == "quick" else 1800
     for k in range(nfiles):
         cases.append({"kind": "files", "k": k})
     for k in range(12 if tier == "quick" else 200):
@@ -244,6 +269,15 @@ def run_case(case, ctx):
             res.cell("class:" + cls)
             if case["key"] == "annotations" and case["typ"] == "integer":
                 res.sample = {"fault": fault, "class": cls, "REUSE.toml": text}
+        elif kind == "toml-broken":
+            text = BROKEN_TOML[case["j"]]
+            where = ["REUSE.toml", "sub/REUSE.toml"][case["j"] % 2]
+            (root / where).write_text(text)
+            fault = f"broken-toml:{case['j']}"
+            for cmd in ("lint", "lint-file", "spdx", "annotate", "download-all", "convert-dep5"):
+                judge(res, run_command(cmd, root), "broken", fault, cmd, detail=text)
+                res.sigs.add(short_hash(fault, cmd))
+            res.cell("broken-toml")
         elif kind in ("toml-trunc", "dep5-trunc"):
             data = (VALID_TOML if kind == "toml-trunc" else VALID_DEP5).encode()[:case["off"]]
             if kind == "toml-trunc":
@@ -313,7 +347,8 @@ HOSTILE_CONTENT = ["random", "nuls", "invalid-utf8-text", "huge-line", "fifo", "
 def run_files(case, ctx, res, root):
     rng = rng_for(ctx.seed, "c16files", case["k"])
     what = HOSTILE_CONTENT[case["k"] % len(HOSTILE_CONTENT)]
-    victim = root / "victim.txt"
+    vname = ["victim.txt", "victim", "Makefile", ".hidden", "victim.py", "victim.unknownext9"][(case["k"] // len(HOSTILE_CONTENT)) % 6]
+    victim = root / vname
     hook_paths = {}
     if what == "random":
         victim.write_bytes(bytes(rng.randrange(256) for _ in range(rng.randint(1, 3000))))
@@ -367,7 +402,7 @@ def run_files(case, ctx, res, root):
         FS.fail_open = dict(hook_paths)
         FS.begin()
         try:
-            r = run_command(cmd, root, target="victim.txt")
+            r = run_command(cmd, root, target=vname)
         finally:
             FS.end()
             FS.on_open = None
@@ -379,7 +414,7 @@ def run_files(case, ctx, res, root):
             try:
                 data = json.loads(r.stdout)
                 rerr = [os.path.basename(p) for p in data["non_compliant"]["read_errors"]]
-                if "victim.txt" not in rerr:
+                if vname not in rerr:
                     res.violation("unreadable-file-not-reported", f"{cmd}: {what}: victim not among read errors {rerr}")
             except ValueError:
                 res.violation("lint-json-unparseable", f"{cmd} on {fault}: no JSON", **r.brief())
